@@ -1,1 +1,9 @@
--- root
+-- root of the library: everything that `lake build Shentu` must check
+import Shentu.Base.Coins
+import Shentu.Base.J
+import Shentu.Model.Bank
+import Shentu.Model.Oracle
+import Shentu.Proofs.Tactics
+import Shentu.Proofs.BankLemmas
+import Shentu.Proofs.OracleLemmas
+import Shentu.Props.C14
